@@ -342,7 +342,10 @@ func garble(r *prng.Rand, s string) string {
 		i := r.Intn(len(b))
 		b[i] = []byte{'-', 'X', ' ', 0, 0xff, '9', 'N', 'A', ':', '\t'}[r.Intn(10)]
 	}
-	return string(b)
+	// The scenario is stored as JSON text, which cannot carry a lone 0xff: it is
+	// written as U+FFFD, so that is what the run executes too (three bytes above
+	// 0x7f; single arbitrary bytes reach the reader through the medium's edits).
+	return strings.ToValidUTF8(string(b), "\ufffd")
 }
 
 // genB composes a B record of total length about want.
